@@ -1157,17 +1157,205 @@ mutual
     | p :: ps => simp [bindList, bind_nolabels env p _ _ D, bindList_nolabels env ps π (i + 1) _ _]
 end
 
-/-! ## The match expression, or-free arms -/
+/-! ## Comparison and binding walk the same or-patterns -/
 
-theorem allPasses_cons_orfree (env : EnumEnv) (ty : Ty) (a : Nat) (p : Pat) (ps : List Pat) (pass : Nat)
-    (D : List Path) (h : orCount p = 0) :
-    allPasses env ty a (p :: ps) pass D =
-      (a, [Instr.dup] ++ (cmp env [a] ty p D).1 ++ [.jumpIf (lblArm pass)]) ::
-        allPasses env ty (a + 1) ps (pass + 1) D := by
-  obtain ⟨h1, _, h3⟩ := orfree_cmp env p [a] ty D h
-  simp [allPasses, h, armPasses, h1, h3]
+mutual
+  theorem bind_cmp_same (env : EnumEnv) (p : Pat) (π : Path) (ty : Ty) (D : List Path) :
+      (bind env π ty p D).2 = (cmp env π ty p D).2 ∧ resolveB env π ty p D = resolveP env π ty p D := by
+    match p with
+    | .wild => simp [bind, cmp, resolveB, resolveP]
+    | .bind _ => simp [bind, cmp, resolveB, resolveP]
+    | .void => simp [bind, cmp, resolveB, resolveP]
+    | .bool _ => simp [bind, cmp, resolveB, resolveP]
+    | .int _ => simp [bind, cmp, resolveB, resolveP]
+    | .float _ => simp [bind, cmp, resolveB, resolveP]
+    | .str _ => simp [bind, cmp, resolveB, resolveP]
+    | .variant0 _ _ => simp [bind, cmp, resolveB, resolveP]
+    | .or a b =>
+      simp only [bind, cmp, resolveB, resolveP]
+      split
+      · exact bind_cmp_same env b (π ++ [1]) ty D
+      · obtain ⟨h1, h2⟩ := bind_cmp_same env a (π ++ [0]) ty D
+        simp [h1, h2]
+    | .tuple ps =>
+      obtain ⟨h1, h2⟩ := bindList_cmp_same env ps π 0 (productTys ty) D
+      simp only [bind, cmp, resolveB, resolveP, h2, prodCode, and_true]
+      split
+      · rename_i he
+        have : ps = [] := by simpa using he
+        subst this; simp [bindList]
+      · exact h1
+    | .struct _ ps =>
+      obtain ⟨h1, h2⟩ := bindList_cmp_same env ps π 0 (productTys ty) D
+      simp only [bind, cmp, resolveB, resolveP, h2, prodCode, and_true]
+      split
+      · rename_i he
+        have : ps = [] := by simpa using he
+        subst this; simp [bindList]
+      · exact h1
+    | .variantPos e idx q =>
+      obtain ⟨h1, h2⟩ := bind_cmp_same env q (π ++ [0]) (dataTy env e idx) D
+      simp only [bind, cmp, resolveB, resolveP]
+      split <;> simp [h1, h2]
+    | .variantNamed e idx ps =>
+      obtain ⟨h1, h2⟩ := bindList_cmp_same env ps π 0 ((variantFields env e idx).getD []) D
+      simp only [bind, cmp, resolveB, resolveP]
+      split
+      · rename_i hl
+        split
+        · simp
+        · match ps, hl with
+          | [q], _ =>
+            obtain ⟨g1, g2⟩ := bind_cmp_same env q (π ++ [0]) (((variantFields env e idx).getD []).headD .void) D
+            simp only [bindList, cmpFirst, resolveBList, resolveFirst, List.append_nil, g1, g2, and_self]
+      · simp only [h2, prodCode, and_true]
+        split
+        · rename_i he
+          have : ps = [] := by simpa using he
+          subst this; simp [bindList]
+        · exact h1
+  theorem bindList_cmp_same (env : EnumEnv) (ps : List Pat) (π : Path) (i : Nat) (tys : List Ty) (D : List Path) :
+      (bindList env π i tys ps D).2 = (cmpElems env π i tys ps D).2 ∧
+        resolveBList env π i tys ps D = resolveElems env π i tys ps D := by
+    match ps with
+    | [] => simp [bindList, cmpElems, resolveBList, resolveElems]
+    | p :: ps =>
+      obtain ⟨h1, h2⟩ := bind_cmp_same env p (π ++ [i]) (tys.headD .void) D
+      simp only [bindList, cmpElems, resolveBList, resolveElems, h1, h2]
+      obtain ⟨g1, g2⟩ := bindList_cmp_same env ps π (i + 1) (tys.drop 1) (cmp env (π ++ [i]) (tys.headD .void) p D).2
+      exact ⟨g1, by rw [g2]⟩
+end
 
-theorem bodies_labels (env : EnumEnv) (ty : Ty) (arms : List Pat) (pass : Nat) (L : List (Nat × List Instr))
+/-! ## The match expression: passes -/
+
+abbrev Pass := Nat × List Path × List Instr
+
+/-- the passes are numbered from `pass`, each is compiled under the decisions the previous one left -/
+def wfPasses (env : EnumEnv) (ty : Ty) (arms : List Pat) : Nat → List Path → List Pass → Prop
+  | _, _, [] => True
+  | pass, D, (a, D', code) :: rest =>
+    D' = D ∧ code = [Instr.dup] ++ (cmp env [a] ty (arms.getD a .wild) D).1 ++ [.jumpIf (lblArm pass)] ∧
+      a < arms.length ∧
+      wfPasses env ty arms (pass + 1) (cmp env [a] ty (arms.getD a .wild) D).2 rest
+
+/-- the decisions after a list of passes -/
+def endD (env : EnumEnv) (ty : Ty) (arms : List Pat) : List Path → List Pass → List Path
+  | D, [] => D
+  | D, (a, _, _) :: rest => endD env ty arms (cmp env [a] ty (arms.getD a .wild) D).2 rest
+
+theorem wfPasses_append (env : EnumEnv) (ty : Ty) (arms : List Pat) (pass : Nat) (D : List Path) (P Q : List Pass) :
+    wfPasses env ty arms pass D (P ++ Q) ↔
+      wfPasses env ty arms pass D P ∧ wfPasses env ty arms (pass + P.length) (endD env ty arms D P) Q := by
+  induction P generalizing pass D with
+  | nil => simp [wfPasses, endD]
+  | cons x P ih =>
+    obtain ⟨a, D', code⟩ := x
+    simp only [List.cons_append, wfPasses, endD, ih, List.length_cons]
+    rw [show pass + 1 + P.length = pass + (P.length + 1) by omega]
+    constructor
+    · rintro ⟨h1, h2, h3, h4, h5⟩; exact ⟨⟨h1, h2, h3, h4⟩, h5⟩
+    · rintro ⟨⟨h1, h2, h3, h4⟩, h5⟩; exact ⟨h1, h2, h3, h4, h5⟩
+
+theorem armPasses_wf (env : EnumEnv) (ty : Ty) (arms : List Pat) (a : Nat) (ha : a < arms.length)
+    (fuel pass : Nat) (D : List Path) :
+    wfPasses env ty arms pass D ((armPasses env ty a (arms.getD a .wild) fuel pass D).1.map (fun c => (a, c))) ∧
+      endD env ty arms D ((armPasses env ty a (arms.getD a .wild) fuel pass D).1.map (fun c => (a, c))) =
+        (armPasses env ty a (arms.getD a .wild) fuel pass D).2 := by
+  induction fuel generalizing pass D with
+  | zero => simp [armPasses, wfPasses, endD]
+  | succ fuel ih =>
+    simp only [armPasses]
+    split
+    · obtain ⟨h1, h2⟩ := ih (pass + 1) (cmp env [a] ty (arms.getD a .wild) D).2
+      refine ⟨?_, by simp only [List.map_cons, endD]; exact h2⟩
+      simp only [List.map_cons]
+      exact ⟨rfl, rfl, ha, h1⟩
+    · refine ⟨?_, by simp [endD]⟩
+      simp only [List.map_cons, List.map_nil]
+      exact ⟨rfl, rfl, ha, trivial⟩
+
+theorem allPasses_wf (env : EnumEnv) (ty : Ty) (arms : List Pat) (ps : List Pat) (a pass : Nat) (D : List Path)
+    (hps : ∀ j, j < ps.length → a + j < arms.length ∧ arms.getD (a + j) .wild = ps.getD j .wild) :
+    wfPasses env ty arms pass D (allPasses env ty a ps pass D) := by
+  induction ps generalizing a pass D with
+  | nil => simp [allPasses, wfPasses]
+  | cons p ps ih =>
+    have h0 := hps 0 (by simp)
+    simp only [Nat.add_zero, List.getD_cons_zero] at h0
+    simp only [allPasses]
+    rw [wfPasses_append]
+    have hw := armPasses_wf env ty arms a h0.1 (orCount p + 1) pass D
+    rw [h0.2] at hw
+    refine ⟨hw.1, ?_⟩
+    rw [hw.2, List.length_map]
+    apply ih
+    intro j hj
+    have := hps (j + 1) (by simp; omega)
+    simpa [Nat.add_assoc, Nat.add_comm 1 j] using this
+
+theorem wfPasses_labels (env : EnumEnv) (ty : Ty) (arms : List Pat) (pass : Nat) (D : List Path) (P : List Pass)
+    (h : wfPasses env ty arms pass D P) :
+    ∀ l ∈ labelsOf (P.flatMap (fun x => x.2.2)), 1 ≤ l.path.length := by
+  induction P generalizing pass D with
+  | nil => simp
+  | cons x P ih =>
+    obtain ⟨a, D', code⟩ := x
+    obtain ⟨_, hc, _, hrest⟩ := h
+    intro l hl
+    simp only [List.flatMap_cons, labelsOf_append, List.mem_append] at hl
+    rcases hl with hl | hl
+    · subst hc
+      simp only [labelsOf_append, labelsOf, List.nil_append, List.append_nil] at hl
+      have := cmp_labels env [a] ty _ D l hl; simpa using this
+    · exact ih _ _ hrest l hl
+
+/-- the alternative pass `x` compares -/
+def passPat (env : EnumEnv) (ty : Ty) (arms : List Pat) (x : Pass) : Pat :=
+  resolveP env [x.1] ty (arms.getD x.1 .wild) x.2.1
+
+theorem passPat_mk (env : EnumEnv) (ty : Ty) (arms : List Pat) (a : Nat) (D : List Path) (c : List Instr) :
+    passPat env ty arms (a, D, c) = resolveP env [a] ty (arms.getD a .wild) D := rfl
+
+/-- comparison phase: ends skipping to the label of the first pass whose alternative matches -/
+theorem comparePhase (env : EnumEnv) (ty : Ty) (arms : List Pat) (v : Val) (hv : hasTy env v ty = true)
+    (hnv : ty.isVoid = false) (harms : ∀ p ∈ arms, patTyped env p ty = true)
+    (P : List Pass) (pass : Nat) (D : List Path) (hwf : wfPasses env ty arms pass D P)
+    (stk : List SVal) (locs : List (Nat × SVal)) (tk : Option Nat) :
+    run (P.flatMap (fun x => x.2.2)) (mk (repr env ty v :: stk) locs tk none) =
+      some (match P.findIdx? (fun x => pmatch (passPat env ty arms x) v) with
+        | some r => mk (repr env ty v :: stk) locs tk (some (lblArm (pass + r)))
+        | none => mk (repr env ty v :: stk) locs tk none) := by
+  induction P generalizing pass D with
+  | nil => simp [run_nil]
+  | cons x P ih =>
+    obtain ⟨a, D', code⟩ := x
+    obtain ⟨hD, hc, ha, hrest⟩ := hwf
+    subst hD hc
+    have htp : patTyped env (arms.getD a .wild) ty = true := by
+      rw [List.getD_eq_getElem?_getD, List.getElem?_eq_getElem ha]
+      exact harms _ (List.getElem_mem ha)
+    simp only [List.flatMap_cons, List.append_assoc, List.singleton_append, List.cons_append, List.nil_append]
+    rw [run_cons]; simp only [step, Option.bind]
+    rw [run_append]
+    have hc := cmp_ok env (arms.getD a .wild) [a] ty D' v (repr env ty v :: stk) locs tk htp hv
+    rw [slot_nonvoid env v hnv, List.singleton_append] at hc
+    rw [hc, Option.bind, run_cons]
+    simp only [step, Option.bind, List.findIdx?_cons, passPat_mk]
+    by_cases hb : pmatch (resolveP env [a] ty (arms.getD a .wild) D') v = true
+    · simp only [hb, if_true, Nat.add_zero]
+      apply run_skip
+      rw [mem_labelsOf]
+      intro hm
+      have := wfPasses_labels env ty arms _ _ P hrest _ hm
+      simp [lblArm] at this
+    · have hb' : pmatch (resolveP env [a] ty (arms.getD a .wild) D') v = false := by simpa using hb
+      simp only [hb', Bool.false_eq_true, if_false]
+      rw [ih (pass + 1) _ hrest]
+      cases P.findIdx? (fun x => pmatch (passPat env ty arms x) v) with
+      | none => rfl
+      | some r => simp only [Option.map_some]; rw [show pass + 1 + r = pass + (r + 1) by omega]
+
+theorem bodies_labels (env : EnumEnv) (ty : Ty) (arms : List Pat) (pass : Nat) (L : List Pass)
     (D : List Path) : ∀ l ∈ labelsOf (bodies env ty arms pass L D), l.path = [] ∧ 100 ≤ l.kind := by
   induction L generalizing pass D with
   | nil => simp [bodies]
@@ -1181,113 +1369,42 @@ theorem bodies_labels (env : EnumEnv) (ty : Ty) (arms : List Pat) (pass : Nat) (
     · split at hl <;> simp [labelsOf] at hl
     · exact ih _ _ l hl
 
-theorem mem_labelsOf_flatMap {α : Type} (L : List α) (f : α → List Instr) (l : Label) :
-    l ∈ labelsOf (L.flatMap f) ↔ ∃ x ∈ L, l ∈ labelsOf (f x) := by
-  induction L with
-  | nil => simp
-  | cons x L ih => simp [List.flatMap_cons, ih]
-
-theorem armPasses_labels (env : EnumEnv) (ty : Ty) (a : Nat) (q : Pat) (fuel pass : Nat) (D : List Path) :
-    ∀ c ∈ (armPasses env ty a q fuel pass D).1, ∀ l ∈ labelsOf c, 1 ≤ l.path.length := by
-  induction fuel generalizing pass D with
-  | zero => simp [armPasses]
-  | succ fuel ih =>
-    have hcode : ∀ l ∈ labelsOf ([Instr.dup] ++ (cmp env [a] ty q D).1 ++ [.jumpIf (lblArm pass)]),
-        1 ≤ l.path.length := by
-      intro l hl
-      simp only [labelsOf_append, labelsOf, List.nil_append, List.append_nil] at hl
-      have := cmp_labels env [a] ty q D l hl; simpa using this
-    intro c hc
-    simp only [armPasses] at hc
-    split at hc
-    · simp only [List.mem_cons] at hc
-      rcases hc with hc | hc
-      · subst hc; exact hcode
-      · exact ih _ _ c hc
-    · simp only [List.mem_singleton] at hc
-      subst hc; exact hcode
-
-theorem allPasses_labels (env : EnumEnv) (ty : Ty) (ps : List Pat) (a pass : Nat) (D : List Path) :
-    ∀ l ∈ labelsOf ((allPasses env ty a ps pass D).flatMap (fun x => x.2)), 1 ≤ l.path.length := by
-  induction ps generalizing a pass D with
-  | nil => simp [allPasses]
-  | cons q qs ih =>
-    intro l hl
-    simp only [allPasses, List.flatMap_append, labelsOf_append, List.mem_append] at hl
-    rcases hl with hl | hl
-    · rw [mem_labelsOf_flatMap] at hl
-      obtain ⟨x, hx, hl⟩ := hl
-      obtain ⟨c, hc, rfl⟩ := List.mem_map.1 hx
-      exact armPasses_labels env ty a q _ _ _ c hc l hl
-    · exact ih _ _ _ l hl
-
-/-- comparison phase: ends skipping to the label of the first arm that matches, scrutinee kept -/
-theorem comparePhase (env : EnumEnv) (ty : Ty) (v : Val) (hv : hasTy env v ty = true) (hnv : ty.isVoid = false)
-    (ps : List Pat) (a pass : Nat) (D : List Path)
-    (hps : ∀ p ∈ ps, orCount p = 0 ∧ patTyped env p ty = true)
-    (stk : List SVal) (locs : List (Nat × SVal)) (tk : Option Nat) :
-    run ((allPasses env ty a ps pass D).flatMap (fun x => x.2)) (mk (repr env ty v :: stk) locs tk none) =
-      some (match ps.findIdx? (fun p => pmatch p v) with
-        | some r => mk (repr env ty v :: stk) locs tk (some (lblArm (pass + r)))
-        | none => mk (repr env ty v :: stk) locs tk none) := by
-  induction ps generalizing a pass with
-  | nil => simp [allPasses, run_nil]
-  | cons p ps ih =>
-    obtain ⟨hof, htp⟩ := hps p (List.mem_cons_self ..)
-    rw [allPasses_cons_orfree env ty a p ps pass D hof]
-    simp only [List.flatMap_cons, List.append_assoc, List.singleton_append, List.cons_append, List.nil_append]
-    rw [run_cons]; simp only [step, Option.bind]
-    rw [run_append]
-    have hc := cmp_ok env p [a] ty D v (repr env ty v :: stk) locs tk htp hv
-    rw [slot_nonvoid env v hnv] at hc
-    rw [List.singleton_append] at hc
-    rw [hc, Option.bind, (orfree_cmp env p [a] ty D hof).2.1, run_cons]
-    simp only [step, Option.bind, List.findIdx?_cons]
-    by_cases hb : pmatch p v = true
-    · simp only [hb, if_true, Nat.add_zero]
-      apply run_skip
-      rw [mem_labelsOf]
-      intro hm
-      have := allPasses_labels env ty ps (a + 1) (pass + 1) D _ hm
-      simp [lblArm] at this
-    · have hb' : pmatch p v = false := by simpa using hb
-      simp only [hb', Bool.false_eq_true, if_false]
-      rw [ih (a + 1) (pass + 1) (fun q hq => hps q (List.mem_cons_of_mem _ hq))]
-      cases ps.findIdx? (fun p => pmatch p v) with
-      | none => rfl
-      | some r => simp only [Option.map_some]; rw [show pass + 1 + r = pass + (r + 1) by omega]
-
-/-- body phase: skipping to `lblArm (pass + r)` reaches the body of arm `r` of `ps`, which binds and
-    then leaves through `endmatch` -/
+/-- body phase: skipping to `lblArm (pass + r)` reaches the body of pass `r`, which binds through the
+    alternative that pass compared and leaves through `endmatch` -/
 theorem bodiesPhase (env : EnumEnv) (ty : Ty) (arms : List Pat) (v : Val) (hv : hasTy env v ty = true)
-    (hnv : ty.isVoid = false) (ps : List Pat) (a pass : Nat) (D0 : List Path)
-    (hps : ∀ p ∈ ps, orCount p = 0 ∧ patTyped env p ty = true)
-    (harms : ∀ j, j < ps.length → arms.getD (a + j) .wild = ps.getD j .wild)
-    (r : Nat) (hr : r < ps.length) (hm : pmatch (ps.getD r .wild) v = true)
+    (hnv : ty.isVoid = false) (harms : ∀ p ∈ arms, patTyped env p ty = true)
+    (P : List Pass) (pass : Nat) (D : List Path) (hwf : wfPasses env ty arms pass D P)
+    (r : Nat) (x : Pass) (hx : P[r]? = some x) (hm : pmatch (passPat env ty arms x) v = true)
     (stk : List SVal) (locs : List (Nat × SVal)) (tk : Option Nat) :
-    run (bodies env ty arms pass (allPasses env ty a ps pass D0) [] ++ [.label lblEndMatch])
+    run (bodies env ty arms pass P D ++ [.label lblEndMatch])
       (mk (repr env ty v :: stk) locs tk (some (lblArm (pass + r)))) =
-      some (mk stk ((bindingsOf env ty (ps.getD r .wild) v).reverse ++ locs) (some (pass + r)) none) := by
-  induction ps generalizing a pass r with
-  | nil => simp at hr
-  | cons p ps ih =>
-    obtain ⟨hof, htp⟩ := hps p (List.mem_cons_self ..)
-    rw [allPasses_cons_orfree env ty a p ps pass D0 hof]
-    have ha : arms.getD a .wild = p := by simpa using harms 0 (by simp)
-    simp only [bodies, ha, (orfree_bind env p [a] ty [] hof).1, List.append_assoc, List.singleton_append,
-      List.cons_append, List.nil_append]
+      some (mk stk ((bindingsOf env ty (passPat env ty arms x) v).reverse ++ locs) (some (pass + r)) none) := by
+  induction P generalizing pass D r with
+  | nil => simp at hx
+  | cons y P ih =>
+    obtain ⟨a, D', code⟩ := y
+    obtain ⟨hD, hc, ha, hrest⟩ := hwf
+    subst hD
+    have htp : patTyped env (arms.getD a .wild) ty = true := by
+      rw [List.getD_eq_getElem?_getD, List.getElem?_eq_getElem ha]
+      exact harms _ (List.getElem_mem ha)
+    obtain ⟨hs1, hs2⟩ := bind_cmp_same env (arms.getD a .wild) [a] ty D'
+    simp only [bodies, hs1, List.append_assoc, List.singleton_append, List.cons_append, List.nil_append]
     rw [run_cons]
     cases r with
     | zero =>
-      simp only [Nat.add_zero, run_skip_label, Option.bind, List.getD_cons_zero] at hm ⊢
+      simp only [List.getElem?_cons_zero, Option.some.injEq] at hx
+      subst hx
+      simp only [Nat.add_zero, run_skip_label, Option.bind, passPat] at hm ⊢
       rw [run_append]
-      have hb := bind_ok env p [a] ty [] v stk locs tk htp hv (by rw [(orfree_bind env p [a] ty [] hof).2]; exact hm)
-      rw [slot_nonvoid env v hnv, List.singleton_append, (orfree_bind env p [a] ty [] hof).2] at hb
+      have hb := bind_ok env (arms.getD a .wild) [a] ty D' v stk locs tk htp hv (by rw [hs2]; exact hm)
+      rw [slot_nonvoid env v hnv, List.singleton_append, hs2] at hb
       rw [hb, Option.bind, run_cons]
       simp only [step, Option.bind]
-      by_cases hemp : (allPasses env ty (a + 1) ps (pass + 1) D0).isEmpty = true
-      · have : allPasses env ty (a + 1) ps (pass + 1) D0 = [] := by simpa using hemp
-        simp [hemp, this, bodies, run_cons, step, run_nil]
+      by_cases hemp : P.isEmpty = true
+      · have : P = [] := by simpa using hemp
+        subst this
+        simp [bodies, run_cons, step, run_nil]
       · simp only [hemp, Bool.false_eq_true, if_false, List.singleton_append, List.cons_append, List.nil_append]
         rw [run_cons]
         simp only [step, Option.bind]
@@ -1301,50 +1418,377 @@ theorem bodiesPhase (env : EnumEnv) (ty : Ty) (arms : List Pat) (v : Val) (hv : 
         run_skip _ _ _ _ _ (by rw [mem_labelsOf, bind_nolabels]; simp), Option.bind, run_cons,
         step_skip_ne _ _ (by simp), Option.bind, run_append,
         run_skip _ _ _ _ _ (by split <;> simp [lblArm, lblEndMatch]), Option.bind]
-      have := ih (a + 1) (pass + 1) (fun q hq => hps q (List.mem_cons_of_mem _ hq))
-        (fun j hj => by
-          have := harms (j + 1) (by simp; omega)
-          simpa [Nat.add_assoc, Nat.add_comm 1 j] using this)
-        r (by simpa using hr) (by simpa using hm)
+      have := ih (pass + 1) _ hrest r (by simpa using hx)
       rw [show pass + 1 + r = pass + (r + 1) by omega] at this
-      simpa using this
+      exact this
 
-theorem allPasses_fst_getD (env : EnumEnv) (ty : Ty) (ps : List Pat) (a pass : Nat) (D : List Path)
-    (hps : ∀ p ∈ ps, orCount p = 0) (k : Nat) (hk : k < ps.length) :
-    ((allPasses env ty a ps pass D).map (fun x => x.1)).getD k 0 = a + k := by
-  induction ps generalizing a pass k with
-  | nil => simp at hk
-  | cons p ps ih =>
-    rw [allPasses_cons_orfree env ty a p ps pass D (hps p (List.mem_cons_self ..))]
-    cases k with
-    | zero => simp
-    | succ k =>
-      simp only [List.map_cons, List.getD_cons_succ]
-      rw [ih (a + 1) (pass + 1) (fun q hq => hps q (List.mem_cons_of_mem _ hq)) k (by simpa using hk)]
-      omega
-
-/-- the whole match on or-free arms -/
-theorem runMatch_orfree (env : EnumEnv) (ty : Ty) (arms : List Pat) (v : Val) (stk : List SVal)
-    (hnv : ty.isVoid = false) (harms : ∀ p ∈ arms, orCount p = 0 ∧ patTyped env p ty = true)
-    (hv : hasTy env v ty = true) (k : Nat) (hk : arms.findIdx? (fun p => pmatch p v) = some k) :
+/-- **the whole match, as the code is**: the body entered is that of the first pass (in emission order)
+    whose selected alternative matches the value; it binds through that alternative; the stack below
+    the scrutinee is untouched -/
+theorem runMatch_general (env : EnumEnv) (ty : Ty) (arms : List Pat) (v : Val) (stk : List SVal)
+    (hnv : ty.isVoid = false) (harms : ∀ p ∈ arms, patTyped env p ty = true) (hv : hasTy env v ty = true)
+    (r : Nat) (x : Pass)
+    (hr : (allPasses env ty 0 arms 0 []).findIdx? (fun x => pmatch (passPat env ty arms x) v) = some r)
+    (hx : (allPasses env ty 0 arms 0 [])[r]? = some x) :
     runMatch env ty arms v stk =
-      some (some k, some k, (bindingsOf env ty (arms.getD k .wild) v).reverse, stk) := by
-  obtain ⟨hklt, hkm, _⟩ := List.findIdx?_eq_some_iff_getElem.1 hk
+      some (some x.1, some r, (bindingsOf env ty (passPat env ty arms x) v).reverse, stk) := by
+  have hwf := allPasses_wf env ty arms arms 0 0 [] (fun j hj => by simpa using hj)
+  obtain ⟨hrlt, hrm, _⟩ := List.findIdx?_eq_some_iff_getElem.1 hr
+  have hxe : x = (allPasses env ty 0 arms 0 [])[r] := by
+    rw [List.getElem?_eq_getElem hrlt] at hx; exact (Option.some.inj hx).symm
   unfold runMatch matchCode
   simp only [hnv, Bool.false_eq_true, if_false, List.append_assoc]
   rw [run_append]
-  have h1 := comparePhase env ty v hv hnv arms 0 0 [] harms stk [] none
-  rw [hk] at h1
+  have h1 := comparePhase env ty arms v hv hnv harms _ 0 [] hwf stk [] none
+  rw [hr] at h1
   simp only [Nat.zero_add] at h1
   rw [show ({ stack := repr env ty v :: stk, locals := [], taken := none, skip := none } : St) =
     mk (repr env ty v :: stk) [] none none from rfl, h1, Option.bind]
-  have hm : pmatch (arms.getD k .wild) v = true := by
-    rw [List.getD_eq_getElem?_getD, List.getElem?_eq_getElem hklt]; exact hkm
-  have h2 := bodiesPhase env ty arms v hv hnv arms 0 0 [] harms (fun j _ => by simp) k hklt hm stk [] none
+  have h2 := bodiesPhase env ty arms v hv hnv harms _ 0 [] hwf r x hx (by rw [hxe]; exact hrm) stk [] none
   simp only [Nat.zero_add] at h2
   rw [h2]
   simp only [List.append_nil, Option.map_some]
-  rw [allPasses_fst_getD env ty arms 0 0 [] (fun p hp => (harms p hp).1) k hklt]
-  simp
+  have : ((allPasses env ty 0 arms 0 []).map (fun x => x.1)).getD r 0 = x.1 := by
+    rw [List.getD_eq_getElem?_getD, List.getElem?_map, hx]; rfl
+  rw [this]
+
+/-! ## Or-chains `a | b | c` of or-free alternatives -/
+
+/-- the alternatives of a right-nested or-chain (the parser builds `a | (b | c)`) -/
+def alts : Pat → List Pat
+  | .or l r => l :: alts r
+  | .wild => [.wild]
+  | .bind x => [.bind x]
+  | .bool b => [.bool b]
+  | .int i => [.int i]
+  | .float f => [.float f]
+  | .str s => [.str s]
+  | .void => [.void]
+  | .tuple ps => [.tuple ps]
+  | .struct id ps => [.struct id ps]
+  | .variant0 e i => [.variant0 e i]
+  | .variantPos e i p => [.variantPos e i p]
+  | .variantNamed e i ps => [.variantNamed e i ps]
+
+/-- every alternative of the chain is or-free -/
+def isChain (p : Pat) : Prop := ∀ q ∈ alts p, orCount q = 0
+
+theorem alts_ne_nil (p : Pat) : alts p ≠ [] := by cases p <;> simp [alts]
+
+theorem alts_orfree {p : Pat} (h : orCount p = 0) : alts p = [p] := by
+  cases p <;> simp_all [alts, orCount]
+
+theorem isChain_orfree {p : Pat} (h : orCount p = 0) : isChain p := by
+  intro q hq; rw [alts_orfree h] at hq; simp at hq; subst hq; exact h
+
+theorem pmatch_alts (p : Pat) (v : Val) : pmatch p v = (alts p).any (fun q => pmatch q v) := by
+  match p with
+  | .or l r => simp only [alts, List.any_cons, pmatch]; rw [pmatch_alts r v]
+  | .wild => simp [alts]
+  | .bind _ => simp [alts]
+  | .bool _ => simp [alts]
+  | .int _ => simp [alts]
+  | .float _ => simp [alts]
+  | .str _ => simp [alts]
+  | .void => simp [alts]
+  | .tuple _ => simp [alts]
+  | .struct _ _ => simp [alts]
+  | .variant0 _ _ => simp [alts]
+  | .variantPos _ _ _ => simp [alts]
+  | .variantNamed _ _ _ => simp [alts]
+
+/-- binding through the chain = binding through its first alternative that matches -/
+theorem bindingsOf_alts (env : EnumEnv) (ty : Ty) (p : Pat) (v : Val) (i : Nat) (q : Pat)
+    (hi : (alts p).findIdx? (fun q => pmatch q v) = some i) (hq : (alts p)[i]? = some q) :
+    bindingsOf env ty p v = bindingsOf env ty q v := by
+  match p with
+  | .or l r =>
+    simp only [alts, List.findIdx?_cons] at hi
+    simp only [bindingsOf]
+    by_cases hl : pmatch l v = true
+    · simp only [hl, if_true, Option.some.injEq] at hi ⊢
+      subst hi; simp [alts] at hq; subst hq; rfl
+    · have hl' : pmatch l v = false := by simpa using hl
+      simp only [hl', Bool.false_eq_true, if_false, Option.map_eq_some_iff] at hi ⊢
+      obtain ⟨i', hi', rfl⟩ := hi
+      simp only [alts, List.getElem?_cons_succ] at hq
+      exact bindingsOf_alts env ty r v i' q hi' hq
+  | .wild => simp [alts, List.findIdx?_cons] at hi hq; obtain ⟨_, rfl⟩ := hi; simp at hq; subst hq; rfl
+  | .bind _ => simp [alts, List.findIdx?_cons] at hi hq; obtain ⟨_, rfl⟩ := hi; simp at hq; subst hq; rfl
+  | .bool _ => simp [alts, List.findIdx?_cons] at hi hq; obtain ⟨_, rfl⟩ := hi; simp at hq; subst hq; rfl
+  | .int _ => simp [alts, List.findIdx?_cons] at hi hq; obtain ⟨_, rfl⟩ := hi; simp at hq; subst hq; rfl
+  | .float _ => simp [alts, List.findIdx?_cons] at hi hq; obtain ⟨_, rfl⟩ := hi; simp at hq; subst hq; rfl
+  | .str _ => simp [alts, List.findIdx?_cons] at hi hq; obtain ⟨_, rfl⟩ := hi; simp at hq; subst hq; rfl
+  | .void => simp [alts, List.findIdx?_cons] at hi hq; obtain ⟨_, rfl⟩ := hi; simp at hq; subst hq; rfl
+  | .tuple _ => simp [alts, List.findIdx?_cons] at hi hq; obtain ⟨_, rfl⟩ := hi; simp at hq; subst hq; rfl
+  | .struct _ _ => simp [alts, List.findIdx?_cons] at hi hq; obtain ⟨_, rfl⟩ := hi; simp at hq; subst hq; rfl
+  | .variant0 _ _ => simp [alts, List.findIdx?_cons] at hi hq; obtain ⟨_, rfl⟩ := hi; simp at hq; subst hq; rfl
+  | .variantPos _ _ _ => simp [alts, List.findIdx?_cons] at hi hq; obtain ⟨_, rfl⟩ := hi; simp at hq; subst hq; rfl
+  | .variantNamed _ _ _ => simp [alts, List.findIdx?_cons] at hi hq; obtain ⟨_, rfl⟩ := hi; simp at hq; subst hq; rfl
+
+/-- path of the k-th or-node of a chain rooted at `π` -/
+def node (π : Path) (k : Nat) : Path := π ++ List.replicate k 1
+
+theorem node_zero (π : Path) : node π 0 = π := by simp [node]
+
+theorem node_succ (π : Path) (k : Nat) : node (π ++ [1]) k = node π (k + 1) := by
+  simp [node, List.replicate_succ]
+
+theorem node_inj (π : Path) (k k' : Nat) (h : node π k = node π k') : k = k' := by
+  have := congrArg List.length h
+  simpa [node] using this
+
+theorem alts_or_length (l r : Pat) : 2 ≤ (alts (.or l r)).length := by
+  have := alts_ne_nil r
+  cases h : alts r with
+  | nil => exact absurd h this
+  | cons _ _ => simp [alts, h]
+
+theorem chain_pass_orfree (env : EnumEnv) (ty : Ty) (p : Pat) (hof : orCount p = 0) (π : Path) (D : List Path)
+    (i : Nat) (hi : i < (alts p).length) :
+    resolveP env π ty p D = (alts p)[i] ∧
+      (cmp env π ty p D).2 = (if i + 1 < (alts p).length then node π i :: D else D) ∧
+      traverse env π p D = decide (i + 1 < (alts p).length) := by
+  obtain ⟨g1, g2, g3⟩ := orfree_cmp env p π ty D hof
+  have ha := alts_orfree hof
+  have hi0 : i = 0 := by rw [ha] at hi; simpa using hi
+  subst hi0
+  refine ⟨?_, ?_, ?_⟩
+  · rw [g2]; simp [ha]
+  · rw [g1, if_neg (by rw [ha]; simp)]
+  · rw [g3]; simp [ha]
+
+/-- pass `i` of a chain: it compiles alternative `i`, records the `i`-th or-node, and reports
+    "went left" unless it was the last alternative -/
+theorem chain_pass (env : EnumEnv) (ty : Ty) (p : Pat) (hchain : isChain p) (π : Path) (D : List Path) (i : Nat)
+    (hi : i < (alts p).length) (hD : ∀ k, D.contains (node π k) = true ↔ k < i) :
+    resolveP env π ty p D = (alts p)[i] ∧
+      (cmp env π ty p D).2 = (if i + 1 < (alts p).length then node π i :: D else D) ∧
+      traverse env π p D = decide (i + 1 < (alts p).length) := by
+  match p with
+  | .or l r =>
+    have hl : orCount l = 0 := hchain l (by simp [alts])
+    have hr : isChain r := fun q hq => hchain q (by simp [alts, hq])
+    have h2 := alts_or_length l r
+    have hc0 := hD 0
+    rw [node_zero] at hc0
+    cases i with
+    | zero =>
+      have hnc : D.contains π = false := by
+        cases hc : D.contains π with
+        | false => rfl
+        | true => exact absurd (hc0.1 hc) (by omega)
+      obtain ⟨g1, g2, _⟩ := orfree_cmp env l (π ++ [0]) ty D hl
+      simp only [resolveP, cmp, traverse, hnc, Bool.false_eq_true, if_false, g1, g2, node_zero]
+      refine ⟨by simp [alts], ?_, ?_⟩
+      · rw [if_pos (by omega)]
+      · simp; omega
+    | succ i =>
+      have hc : D.contains π = true := hc0.2 (by omega)
+      have hi' : i < (alts r).length := by simp [alts] at hi; omega
+      obtain ⟨g1, g2, g3⟩ := chain_pass env ty r hr (π ++ [1]) D i hi'
+        (fun k => by rw [node_succ]; exact (hD (k + 1)).trans (by omega))
+      have hlen : (alts (Pat.or l r)).length = (alts r).length + 1 := by simp [alts]
+      simp only [resolveP, cmp, traverse, hc, if_true, g1, g2, g3, node_succ]
+      refine ⟨by simp [alts], ?_, ?_⟩
+      · by_cases h : i + 1 < (alts r).length
+        · rw [if_pos h, if_pos (by omega)]
+        · rw [if_neg h, if_neg (by omega)]
+      · rw [decide_eq_decide]; omega
+  | .wild => exact chain_pass_orfree env ty _ (hchain _ (by simp [alts])) π D i hi
+  | .bind _ => exact chain_pass_orfree env ty _ (hchain _ (by simp [alts])) π D i hi
+  | .bool _ => exact chain_pass_orfree env ty _ (hchain _ (by simp [alts])) π D i hi
+  | .int _ => exact chain_pass_orfree env ty _ (hchain _ (by simp [alts])) π D i hi
+  | .float _ => exact chain_pass_orfree env ty _ (hchain _ (by simp [alts])) π D i hi
+  | .str _ => exact chain_pass_orfree env ty _ (hchain _ (by simp [alts])) π D i hi
+  | .void => exact chain_pass_orfree env ty _ (hchain _ (by simp [alts])) π D i hi
+  | .tuple _ => exact chain_pass_orfree env ty _ (hchain _ (by simp [alts])) π D i hi
+  | .struct _ _ => exact chain_pass_orfree env ty _ (hchain _ (by simp [alts])) π D i hi
+  | .variant0 _ _ => exact chain_pass_orfree env ty _ (hchain _ (by simp [alts])) π D i hi
+  | .variantPos _ _ _ => exact chain_pass_orfree env ty _ (hchain _ (by simp [alts])) π D i hi
+  | .variantNamed _ _ _ => exact chain_pass_orfree env ty _ (hchain _ (by simp [alts])) π D i hi
+
+theorem contains_cons_node (D : List Path) (a i k : Nat) :
+    (node [a] i :: D).contains (node [a] k) = true ↔ (k = i ∨ D.contains (node [a] k) = true) := by
+  simp only [List.contains_cons, Bool.or_eq_true, beq_iff_eq]
+  constructor
+  · rintro (h | h)
+    · exact Or.inl (node_inj [a] k i h)
+    · exact Or.inr h
+  · rintro (h | h)
+    · exact Or.inl (by rw [h])
+    · exact Or.inr h
+
+/-- the passes of a chain arm compile its alternatives in order -/
+theorem armPasses_chain (env : EnumEnv) (ty : Ty) (arms : List Pat) (a : Nat) (p : Pat)
+    (hp : arms.getD a .wild = p) (hchain : isChain p) :
+    ∀ (m i pass fuel : Nat) (D : List Path), i + m = (alts p).length → 1 ≤ m → m ≤ fuel →
+      (∀ k, D.contains (node [a] k) = true ↔ k < i) →
+      ((armPasses env ty a p fuel pass D).1.map (fun c => passPat env ty arms (a, c))) = (alts p).drop i ∧
+        (∀ π' ∈ (armPasses env ty a p fuel pass D).2, π' ∈ D ∨ ∃ k, π' = node [a] k) := by
+  intro m
+  induction m with
+  | zero => intro i pass fuel D _ h1; omega
+  | succ m ih =>
+    intro i pass fuel D him _ hfuel hD
+    have hi : i < (alts p).length := by omega
+    obtain ⟨g1, g2, g3⟩ := chain_pass env ty p hchain [a] D i hi hD
+    cases fuel with
+    | zero => omega
+    | succ f =>
+      have hpp : passPat env ty arms (a, D, [Instr.dup] ++ (cmp env [a] ty p D).1 ++ [.jumpIf (lblArm pass)]) =
+          (alts p)[i] := by rw [passPat_mk, hp]; exact g1
+      simp only [armPasses, g3]
+      by_cases hlast : i + 1 < (alts p).length
+      · simp only [hlast, decide_true, if_true, List.map_cons, hpp]
+        rw [g2, if_pos hlast]
+        obtain ⟨h1, h2⟩ := ih (i + 1) (pass + 1) f (node [a] i :: D) (by omega) (by omega) (by omega)
+          (fun k => by
+            rw [contains_cons_node]
+            constructor
+            · rintro (h | h)
+              · omega
+              · have := (hD k).1 h; omega
+            · intro h
+              by_cases hk : k = i
+              · exact Or.inl hk
+              · exact Or.inr ((hD k).2 (by omega)))
+        refine ⟨?_, ?_⟩
+        · rw [h1]; exact (List.drop_eq_getElem_cons hi).symm
+        · intro π' hπ
+          rcases h2 π' hπ with h | h
+          · simp only [List.mem_cons] at h
+            rcases h with h | h
+            · exact Or.inr ⟨i, h⟩
+            · exact Or.inl h
+          · exact Or.inr h
+      · simp only [hlast, decide_false, Bool.false_eq_true, if_false, List.map_cons, List.map_nil, hpp]
+        rw [g2, if_neg hlast]
+        refine ⟨?_, fun π' hπ => Or.inl hπ⟩
+        rw [List.drop_eq_getElem_cons hi, List.drop_eq_nil_of_le (by omega)]
+
+/-- all alternatives of all arms, in order, with their arm index -/
+def altList : Nat → List Pat → List (Nat × Pat)
+  | _, [] => []
+  | a, p :: ps => (alts p).map (fun q => (a, q)) ++ altList (a + 1) ps
+
+theorem orCount_chain {p : Pat} (h : isChain p) : orCount p + 1 = (alts p).length := by
+  match p with
+  | .or l r =>
+    have hl : orCount l = 0 := h l (by simp [alts])
+    have hr : isChain r := fun q hq => h q (by simp [alts, hq])
+    have := orCount_chain hr
+    simp only [orCount, alts, List.length_cons]; omega
+  | .wild => simp [orCount, alts]
+  | .bind _ => simp [orCount, alts]
+  | .bool _ => simp [orCount, alts]
+  | .int _ => simp [orCount, alts]
+  | .float _ => simp [orCount, alts]
+  | .str _ => simp [orCount, alts]
+  | .void => simp [orCount, alts]
+  | .variant0 _ _ => simp [orCount, alts]
+  | .tuple ps => have := h (.tuple ps) (by simp [alts]); simp [alts, this]
+  | .struct id ps => have := h (.struct id ps) (by simp [alts]); simp [alts, this]
+  | .variantPos e i q => have := h (.variantPos e i q) (by simp [alts]); simp [alts, this]
+  | .variantNamed e i ps => have := h (.variantNamed e i ps) (by simp [alts]); simp [alts, this]
+
+theorem allPasses_chain (env : EnumEnv) (ty : Ty) (arms : List Pat) :
+    ∀ (ps : List Pat) (a pass : Nat) (D : List Path),
+      (∀ j, j < ps.length → arms.getD (a + j) .wild = ps.getD j .wild) → (∀ p ∈ ps, isChain p) →
+      (∀ π' ∈ D, ∃ a', a' < a ∧ π'.head? = some a') →
+      (allPasses env ty a ps pass D).map (fun x => (x.1, passPat env ty arms x)) = altList a ps := by
+  intro ps
+  induction ps with
+  | nil => intro a pass D _ _ _; simp [allPasses, altList]
+  | cons p ps ih =>
+    intro a pass D harms hch hD
+    have hp : arms.getD a .wild = p := by simpa using harms 0 (by simp)
+    have hcp := hch p (List.mem_cons_self ..)
+    have hD0 : ∀ k, D.contains (node [a] k) = true ↔ k < 0 := by
+      intro k
+      constructor
+      · intro hc
+        have hm : node [a] k ∈ D := by simpa using hc
+        obtain ⟨a', ha', hh⟩ := hD _ hm
+        simp [node] at hh; omega
+      · intro h; omega
+    obtain ⟨h1, h2⟩ := armPasses_chain env ty arms a p hp hcp (alts p).length 0 pass (orCount p + 1) D
+      (by simp) (by have := alts_ne_nil p; cases h : alts p <;> simp_all) (Nat.le_of_eq (orCount_chain hcp).symm) hD0
+    simp only [allPasses, altList, List.map_append, List.map_map]
+    congr 1
+    · have : (fun c => (a, passPat env ty arms (a, c))) =
+          (fun q => (a, q)) ∘ (fun c => passPat env ty arms (a, c)) := rfl
+      simp only [Function.comp_def]
+      rw [show (List.map (fun c => (a, passPat env ty arms (a, c))) (armPasses env ty a p (orCount p + 1) pass D).1) =
+        ((armPasses env ty a p (orCount p + 1) pass D).1.map (fun c => passPat env ty arms (a, c))).map
+          (fun q => (a, q)) by simp [List.map_map], h1]
+      simp
+    · apply ih
+      · intro j hj
+        have := harms (j + 1) (by simp; omega)
+        simpa [Nat.add_assoc, Nat.add_comm 1 j] using this
+      · exact fun q hq => hch q (List.mem_cons_of_mem _ hq)
+      · intro π' hπ
+        rcases h2 π' hπ with h | ⟨k, h⟩
+        · obtain ⟨a', ha', hh⟩ := hD _ h; exact ⟨a', by omega, hh⟩
+        · exact ⟨a, by omega, by simp [h, node]⟩
+
+/-- the first matching entry of `altList` belongs to the first matching arm and is its first
+    matching alternative -/
+theorem altList_first (v : Val) : ∀ (ps : List Pat) (a k : Nat), ps.findIdx? (fun p => pmatch p v) = some k →
+    ∃ r q, (altList a ps).findIdx? (fun x => pmatch x.2 v) = some r ∧ (altList a ps)[r]? = some (a + k, q) ∧
+      ∀ env ty, bindingsOf env ty (ps.getD k .wild) v = bindingsOf env ty q v := by
+  intro ps
+  induction ps with
+  | nil => intro a k h; simp at h
+  | cons p ps ih =>
+    intro a k h
+    simp only [List.findIdx?_cons] at h
+    simp only [altList, List.findIdx?_append, List.findIdx?_map, Function.comp_def, List.length_map]
+    by_cases hp : pmatch p v = true
+    · simp only [hp, if_true, Option.some.injEq] at h
+      subst h
+      have hany : (alts p).any (fun q => pmatch q v) = true := by rw [← pmatch_alts]; exact hp
+      obtain ⟨q, hq, hqm⟩ := List.any_eq_true.1 hany
+      cases hf : (alts p).findIdx? (fun q => pmatch q v) with
+      | none => exact absurd hqm (by simpa using List.findIdx?_eq_none_iff.1 hf q hq)
+      | some i =>
+        obtain ⟨hi, _, _⟩ := List.findIdx?_eq_some_iff_getElem.1 hf
+        refine ⟨i, (alts p)[i], by simp, ?_, fun env ty => ?_⟩
+        · rw [List.getElem?_append_left (by simpa using hi)]; simp [hi]
+        · exact bindingsOf_alts env ty p v i _ hf (by simp [hi])
+    · have hp' : pmatch p v = false := by simpa using hp
+      simp only [hp', Bool.false_eq_true, if_false, Option.map_eq_some_iff] at h
+      obtain ⟨k', hk', rfl⟩ := h
+      have hnone : (alts p).findIdx? (fun q => pmatch q v) = none := by
+        rw [List.findIdx?_eq_none_iff]
+        intro q hq
+        have : (alts p).any (fun q => pmatch q v) = false := by rw [← pmatch_alts]; exact hp'
+        simpa using List.any_eq_false.1 this q hq
+      obtain ⟨r, q, h1, h2, h3⟩ := ih (a + 1) k' hk'
+      refine ⟨r + (alts p).length, q, by simp [hnone, h1], ?_, fun env ty => ?_⟩
+      · rw [List.getElem?_append_right (by simp)]
+        simp only [List.length_map, Nat.add_sub_cancel]
+        rw [h2]; congr 2; omega
+      · simpa using h3 env ty
+
+/-- **the whole match on or-chains**: arms that are chains `a | b | …` of or-free alternatives (an
+    or-free arm is the chain of length 1) -/
+theorem runMatch_chain (env : EnumEnv) (ty : Ty) (arms : List Pat) (v : Val) (stk : List SVal)
+    (hnv : ty.isVoid = false) (harms : ∀ p ∈ arms, patTyped env p ty = true) (hch : ∀ p ∈ arms, isChain p)
+    (hv : hasTy env v ty = true) (k : Nat) (hk : arms.findIdx? (fun p => pmatch p v) = some k) :
+    ∃ r, runMatch env ty arms v stk =
+      some (some k, some r, (bindingsOf env ty (arms.getD k .wild) v).reverse, stk) := by
+  have hmap := allPasses_chain env ty arms arms 0 0 [] (fun j _ => by simp) hch (by simp)
+  obtain ⟨r, q, h1, h2, h3⟩ := altList_first v arms 0 k hk
+  rw [← hmap, List.findIdx?_map] at h1
+  rw [← hmap, List.getElem?_map] at h2
+  simp only [Nat.zero_add, Option.map_eq_some_iff] at h2
+  obtain ⟨x, hx, hxe⟩ := h2
+  have hx1 : x.1 = k := congrArg Prod.fst hxe
+  have hx2 : passPat env ty arms x = q := congrArg Prod.snd hxe
+  refine ⟨r, ?_⟩
+  rw [runMatch_general env ty arms v stk hnv harms hv r x (by simpa [Function.comp_def] using h1) hx, hx1, hx2,
+    h3 env ty]
 
 end Abra.PatCompile
